@@ -42,7 +42,7 @@ PROPS = {
     },
     "C07": {
         "engine": "rewrite",
-        "quick": (400, 50), "thorough": (6000, 800),
+        "quick": (800, 150), "thorough": (6000, 800),
         "rule": ("Each run: one random rigid diagram (boxes, caps/cups of both orientations, winding numbers "
                  "in [-3,3], snake templates with obstructions on either side, invalid look-alike snakes), "
                  "lazy normalize() tasks stepped/interleaved/abandoned, legal interchanges on forks, "
